@@ -300,6 +300,12 @@ fn lock_log() -> &'static Mutex<Option<Vec<LockEvent>>> {
     L.get_or_init(Default::default)
 }
 
+/// ids for resources outside the lock registry (disjoint from registry ids)
+pub fn next_resource_id() -> usize {
+    static NEXT: std::sync::atomic::AtomicUsize = std::sync::atomic::AtomicUsize::new(1 << 40);
+    NEXT.fetch_add(1, Ordering::SeqCst)
+}
+
 pub fn lock_trace_start() {
     *lock_log().lock().unwrap() = Some(Vec::new());
 }
